@@ -1326,6 +1326,26 @@ LIMITS = {"Betfair": {"PLACE": 200, "CANCEL": 60, "UPDATE": 60, "REPLACE": 60}, 
 NEW_ORDER_MAY_CHANGE = {"status", "nlog", "violation_msg", "client", "complete", "views"}
 
 
+def unexecuted_packages(tr, case):
+    """Backtests: packages handed to the simulated exchange that were never executed although their own market kept updating for longer
+    than latency + bet delay after the request (a package is due at the first update of its market more than that after the request)."""
+    cfg = case.get("config", {}) if case else {}
+    done = {e["pid"] for e in tr.effects}
+    lost = []
+    for p in tr.packages:
+        if p["pid"] in done:
+            continue
+        lat = cfg.get(LAT_KEYS[p["kind"]], LAT_DEFAULT[LAT_KEYS[p["kind"]]])
+        d_ms = int(round((lat + (p.get("bet_delay") or 0 if p["kind"] in ("PLACE", "REPLACE") else 0)) * 1000))
+        if not (0 <= p["tick"] < len(tr.ticks)) or tr.ticks[p["tick"]]["pt"] is None:
+            continue
+        t0 = tr.ticks[p["tick"]]["pt"]
+        later = [tk["pt"] for tk in tr.ticks[p["tick"] + 1 :] if tk["market"] == p["market"] and tk["pt"] is not None]
+        if any(pt - t0 > d_ms + 1 for pt in later):
+            lost.append(p)
+    return lost
+
+
 def c02_requests(tr, out, exchange="Betfair", exec_class="Simulated"):
     accepted = collections.Counter()
     req_order = collections.defaultdict(list)  # (tx, kind, mv) -> [okey...] in request order
